@@ -502,7 +502,7 @@ def random_ml(rng, wild=False):
 # ---------------------------------------------------------------------------
 # 4. classification of a failing execution (key computed from what fails)
 
-def classify(world, trace, verdict, pos, cverdict, cpos=0):
+def classify(world, trace, verdict, pos, cverdict, cpos=0, code_dev=()):
     clause = verdict[5:]
     log = world.log
     proto = world.proto
@@ -555,7 +555,9 @@ def classify(world, trace, verdict, pos, cverdict, cpos=0):
                        f"the get latency and returned before the tail had it")
             else:
                 key = clause + ":unclassified"
-    if key in KEY_DEV and cverdict != "OK" and cpos <= pos:      # drift after the failing event is irrelevant
+    # a key that is an open finding only counts as that finding if the impl model with the open deviations
+    # reproduces the execution up to the failing event (drift after it is irrelevant)
+    if key in KEY_DEV and KEY_DEV[key] in code_dev and cverdict != "OK" and cpos <= pos:
         key = f"{key}:not_reproduced_by_model({cverdict})"
     return key, why
 
@@ -726,7 +728,7 @@ def judge(chk, traces, meta, code_dev):
             st["prop"] += 1
             cv, cpos = conf.get(tid, ("?", 0))
             world, _, _, _ = W.execute(meta[tid]["scenario"], tid, tr["conf"])     # deterministic re-execution
-            key, why = classify(world, tr, verdict, pos, cv, cpos)
+            key, why = classify(world, tr, verdict, pos, cv, cpos, code_dev)
             desc = f"{verdict[5:]} at event {pos} of a {tr['proto']} execution ({origin})" + (f": {why}" if why else "")
             chk.violation(key, desc, {"scenario": meta[tid]["scenario"], "origin": origin, "verdict": verdict,
                                       "pos": pos, "conf": tr["conf"]})
